@@ -9,4 +9,5 @@ pub mod model;
 pub mod props;
 pub mod runner;
 pub mod s3sim;
+pub mod ufuzz;
 pub mod wire;
